@@ -81,15 +81,16 @@ class Scenario:
             pats = []
             same_line = npat == 2 and r.random() < 0.25
             for i, k in enumerate(kinds):
+                # occurrences are placeholders (\x01 = the version, \x02 = its PEP 440 form) filled in by render()
                 if k == "version":
                     pats.append("{version}")
-                    text = f"release {self.current} here"
+                    text = "release \x01 here"
                 elif k == "pep440":
                     pats.append('pep = "{pep440_version}"')
-                    text = f'pep = "{self._pep(self.current)}"'
+                    text = 'pep = "\x02"'
                 else:
                     pats.append('__version__ = "{version}"')
-                    text = f'__version__ = "{self.current}"'
+                    text = '__version__ = "\x01"'
                 if same_line and i == 1:
                     lines[occ[0][0]] = lines[occ[0][0]] + "   " + text
                     occ.append((occ[0][0], k))
@@ -136,6 +137,9 @@ class Scenario:
         self.pre_hook = r.choice([None, None, "ok", "fail"]) if self.commit else None
         self.post_hook = r.choice([None, None, "ok", "fail"]) if self.commit else None
 
+    def render(self, lines, v):
+        return [ln.replace("\x01", v).replace("\x02", self._pep(v)) for ln in lines]
+
     def _pep(self, v):
         try:
             return ref_pep440(v)
@@ -149,7 +153,7 @@ class Scenario:
         for fn, lines in self.files.items():
             path = os.path.join(d, fn)
             os.makedirs(os.path.dirname(path), exist_ok=True)
-            content = self.sep.join(lines) + (self.sep if self.final_newline else "")
+            content = self.sep.join(self.render(lines, self.current)) + (self.sep if self.final_newline else "")
             if self.fault == "nomatch" and fn == self.fault_file:
                 content = content.replace(self.current, "X.Y.Z").replace(self._pep(self.current), "X.Y.Z")
             if not (self.fault == "missing" and fn == self.fault_file):
@@ -328,11 +332,7 @@ def check_scenario(seed, keep_dir=False):
         # ---- C03 / C04: successful real run rewrote exactly the occurrences
         if rc == 0 and not sc.dry and new is not None and sc.kinds_ok:
             for fn, lines in sc.files.items():
-                exp = list(lines)
-                for li, kind in sc.occ[fn]:
-                    rep_new = new if kind != "pep440" else sc._pep(new)
-                    rep_old = sc.current if kind != "pep440" else sc._pep(sc.current)
-                    exp[li] = exp[li].replace(rep_old, rep_new)
+                exp = sc.render(lines, new)
                 want = (sc.sep.join(exp) + (sc.sep if sc.final_newline else "")).encode("utf-8")
                 got = after.get(fn)
                 if got != want:
